@@ -26,6 +26,10 @@ claimed = {
    technique="explicit-state BFS over relationship-creating histories from fresh and opened foreign packages with all injective id assignments, relationship-graph invariant on every saved state",
    text="Seeds: a fresh document and every foreign package whose styles/image/header/numbering relationships carry every injective assignment of ids from {rId1,rId2,rId3,rId4,rId7,x1} (97 seeds quick, 1172 thorough); from each, every history of 2 operations over 17 relationship-creating calls (images in body/cell/template placeholder, headers/footers of all kinds, list, notes, settings, properties, render, reopen); every distinct state is saved and the independent reader checks id uniqueness, target presence, owner, and resolution of every r:id / r:embed to a relationship of the matching kind.",
    note="Histories of more than 2 operations after the seed and id pools beyond the six listed ids are not covered."),
+ "C05": dict(engine="shard(faultx)", cat="model_checking", ref="§4 C05, §3.5",
+   technique="exhaustive write-fault enumeration on the real Save path: stateless exploration of every failure offset (kernel RLIMIT_FSIZE=k for every byte k of the output) and every unwritable target kind, judged against the ToBytes serialisation through an independent ZIP/XML reader",
+   text="For each document of a fixed set (one paragraph inside one buffer block; ~15 KiB mixed document with table, header, footer, list, footnote; documents with incompressible images; thorough adds a ~77 KiB three-image document, an opened foreign package with an edit, a document saved before, an empty document) and EVERY byte offset k of its output file, the real Document.Save runs with the file cut at byte k by the kernel; Save may return nil only if the file read back is a complete ZIP whose parts equal those of ToBytes taken just before. Target paths: plain, Save before any ToBytes, nested new directories, existing longer/shorter file, bare relative name (must be complete, faithful, no trailing bytes); /dev/full, a directory, below a regular file, empty name (must return an error).",
+   note="Fault model is a size limit / ENOSPC at a byte offset; close-time failures of network file systems and power-loss durability are not modelled. Documents are a fixed set, not all documents."),
 }
 
 not_yet = {}
@@ -59,6 +63,7 @@ m = {
  "engines": [
    {"name": "seqx", "path": "harness/internal/seqx", "serves_properties": [], "kind_free_text": "explicit-state BFS over operation histories of the real API (replay + one op in worker subprocesses, global dedup on canonical state key, lock-step reference model)"},
    {"name": "shard", "path": "harness/internal/shard", "serves_properties": [], "kind_free_text": "exhaustive input-shape enumeration sharded over worker subprocesses with crash/hang journal"},
+   {"name": "shard(faultx)", "path": "harness/cmd/vcheck/c05.go", "serves_properties": [], "kind_free_text": "write-fault injector: RLIMIT_FSIZE=k with SIGXFSZ ignored around the real Save call in a worker subprocess, every k enumerated; unwritable target paths"},
    {"name": "pkgmodel", "path": "harness/internal/pkgmodel", "serves_properties": [], "kind_free_text": "independent OOXML package reader (zip, strict namespace-aware XML, OPC content types/relationships, element tree)"},
  ],
  "checks": checks,
